@@ -1,7 +1,56 @@
 """Bounded stand-in for C14 (never counted as proved): run-time sync contracts on real project pairs, see syncharness."""
-from .common import Budget
+import contextlib
+import io
+import json
+import os
+
+from .common import Budget, dir_scratch, script_header
 from .syncharness import run_focus
 
 
+def stale_backup_check():
+    """'when document synchronisation raises ... the destination document is exactly its pre-sync content' also when a backup file left
+    behind by an interrupted sync sits next to the destination document (job level and project level; the sync may refuse up front)"""
+    import logging
+    import signac
+    logging.disable(logging.CRITICAL)
+    out = []
+    for level in ("job", "project"):
+        with dir_scratch() as d:
+            os.makedirs(d + "/src")
+            os.makedirs(d + "/dst")
+            src, dst = signac.init_project(d + "/src"), signac.init_project(d + "/dst")
+            js, jd = src.open_job({"a": 1}).init(), dst.open_job({"a": 1}).init()
+            if level == "job":
+                js.doc["k"], jd.doc["k"] = 2, 1
+                js.doc["only_src"] = 0
+                fn = jd.fn("signac_job_document.json")
+            else:
+                src.doc["k"], dst.doc["k"] = 2, 1
+                src.doc["only_src"] = 0
+                fn = dst.fn("signac_project_document.json")
+            pre = open(fn, "rb").read()
+            open(fn + "~", "wb").write(b'{"stale": true}')
+            err = None
+            try:
+                with contextlib.redirect_stdout(io.StringIO()):
+                    dst.sync(src)      # default document strategy: the differing key k is a conflict
+            except Exception as e:
+                err = e
+            now = open(fn, "rb").read()
+            if err is None:
+                out.append((level, f"{level} document with a conflicting key and a stale backup file next to it: the sync did not raise"))
+            elif json.loads(now.decode() or "{}") != json.loads(pre.decode()):
+                out.append((level, f"{level} document sync raised {type(err).__name__} with a stale backup file next to the document: the destination document is now "
+                                   f"{now.decode()[:80]!r}, its pre-sync content was {pre.decode()[:80]!r}"))
+    return out
+
+
 def run(tier="quick", seed=0):
-    return run_focus("C14", tier, seed, Budget(14 if tier == "quick" else 300))
+    r = run_focus("C14", tier, seed, Budget(14 if tier == "quick" else 300))
+    for level, msg in stale_backup_check():
+        r["failures"].append({"key": "doc-rollback:stale-backup:" + level, "description": msg,
+                              "script": script_header() + "sys.path.insert(0, '/verif')\nfrom pybound.c14 import stale_backup_check\nr = stale_backup_check()\nassert not r, r\n"})
+    r["evaluations"] += 2
+    r["scope"] += "; a conflicting document sync with a stale backup file next to the destination document (job and project level): raises and leaves the document as it was"
+    return r
